@@ -69,6 +69,13 @@ def ctor_name(node):
     return None
 
 
+def suspect(chk, rid, construct, what, detail=None):
+    """A syntactic idiom check that does not recognise the code any more.  This is NOT a verdict: a behaviour-preserving refactoring
+    (a guard moved into a helper, a loop extracted) changes the shape too.  The fact is recorded as a note; the polarity / flattening
+    behaviour itself is decided by the interpreted clauses (absorbing and neutral operands are explored exhaustively)."""
+    chk.notes.append(f"{rid} (syntactic, advisory): {construct}: {what}")
+
+
 def of_exit_shapes(chk, rid):
     """R15.2 + R02.3 polarity facts for both `of` fix-points."""
     for kname, k in KINDS.items():
@@ -85,7 +92,7 @@ def of_exit_shapes(chk, rid):
                     continue
                 test, pol = guards[-1]
                 if pol and calls_method(test, k["absorbing"]) and not calls_method(test, k["neutral"]):
-                    chk.fail(rid, f"{base}:continue-under-{k['absorbing']}",
+                    suspect(chk, rid, f"{base}:continue-under-{k['absorbing']}",
                              f"{kname}.of drops an operand under a `{k['absorbing']}()` test: the absorbing element of "
                              f"{'and' if kname == 'MultiMarker' else 'or'} must short-circuit, only the neutral one (`{k['neutral']}()`) may be dropped "
                              f"(line {st.lineno})")
@@ -99,32 +106,32 @@ def of_exit_shapes(chk, rid):
                     if c == k["absorbing_ctor"]:
                         good = any(calls_method(t, k["absorbing"]) for t in tests)
                         if not good:
-                            chk.fail(rid, f"{base}:return-{c}", f"{kname}.of returns the absorbing constant {c}() on a path not guarded by "
+                            suspect(chk, rid, f"{base}:return-{c}", f"{kname}.of returns the absorbing constant {c}() on a path not guarded by "
                                      f"a `{k['absorbing']}()` test (line {st.lineno})")
                         else:
                             chk.ok(rid, key=(kname, "ret-absorbing", st.lineno))
                     else:
                         bad = any(calls_method(t, k["absorbing"]) for t in tests)
                         if bad:
-                            chk.fail(rid, f"{base}:return-{c}", f"{kname}.of returns the neutral constant {c}() under a `{k['absorbing']}()` test "
+                            suspect(chk, rid, f"{base}:return-{c}", f"{kname}.of returns the neutral constant {c}() under a `{k['absorbing']}()` test "
                                      f"(line {st.lineno}); the absorbing constant is {k['absorbing_ctor']}()")
                         else:
                             chk.ok(rid, key=(kname, "ret-neutral", st.lineno))
                 elif c in ("AnyMarker", "EmptyMarker"):
-                    chk.fail(rid, f"{base}:return-{c}", f"unexpected constant {c}() returned by {kname}.of")
+                    suspect(chk, rid, f"{base}:return-{c}", f"unexpected constant {c}() returned by {kname}.of")
         # merge step: a BinOp on two names inside the loop must be the class's own operator, simplify call the partner's
         for n in ast.walk(of):
             if isinstance(n, ast.BinOp) and isinstance(n.op, (ast.BitAnd, ast.BitOr)) and isinstance(n.left, ast.Name) and isinstance(n.right, ast.Name):
                 n_merge += 1
                 if not isinstance(n.op, k["op"]):
-                    chk.fail(rid, f"{base}:merge-operator", f"{kname}.of merges two operands with `{ast.unparse(n)}` — wrong operator for "
+                    suspect(chk, rid, f"{base}:merge-operator", f"{kname}.of merges two operands with `{ast.unparse(n)}` — wrong operator for "
                              f"{'conjunction' if kname == 'MultiMarker' else 'disjunction'} (line {n.lineno})")
                 else:
                     chk.ok(rid, key=(kname, "merge-op"))
             if isinstance(n, ast.Call) and isinstance(n.func, ast.Attribute) and n.func.attr.endswith("_simplify"):
                 n_merge += 1
                 if n.func.attr != k["simplify"]:
-                    chk.fail(rid, f"{base}:simplify-call", f"{kname}.of calls {n.func.attr}; expected {k['simplify']} (line {n.lineno})")
+                    suspect(chk, rid, f"{base}:simplify-call", f"{kname}.of calls {n.func.attr}; expected {k['simplify']} (line {n.lineno})")
                 else:
                     chk.ok(rid, key=(kname, "simplify"))
         if not (n_cont >= 1 and n_ret >= 3 and n_merge >= 1):
@@ -144,7 +151,7 @@ def flatten_classes(chk, rid):
                 c = n.args[1]
                 cname = c.id if isinstance(c, ast.Name) else ast.unparse(c)
                 if cname not in (kname, "cls"):
-                    chk.fail(rid, f"{mod}:{kname}:flatten_items", f"{kname} flattens {cname} instead of its own class (line {n.lineno})")
+                    suspect(chk, rid, f"{mod}:{kname}:flatten_items", f"{kname} flattens {cname} instead of its own class (line {n.lineno})")
                 else:
                     chk.ok(rid, key=(kname, n.lineno))
         chk.instance(rid)
